@@ -918,9 +918,13 @@ def parse_fragment(T, repo, ent):
         pp = T.Parser(T.tokenize("{" + fr["prologue"] + "}", l0), name); pre, pt = pp.block()
         if pt is not None: raise T.Unsupported(f"{what}: fragment prologue must consist of statements")
     norm = " ".join(t[1] for t in toks[i:k])
-    return {"name": name + " [fragment]", "params": [(n, t, False) for n, t in fr["params"]], "ret": fr["ret"],
+    selfty = None; params = []
+    for n, t in fr["params"]:
+        if n == "self": selfty = t; params.append(("self", ("selfty", "ref"), False))       # `("self", "StructName")`: the receiver `&self` of a registered struct
+        else: params.append((n, t, False))
+    return {"name": name + " [fragment]", "params": params, "ret": fr["ret"],
             "body": (list(pre) + list(stmts), ("path", [fr["result"]])), "file": rel, "line0": l0, "line1": l1,
-            "hash": hashlib.sha256(norm.encode()).hexdigest()[:16], "norm": norm, "selfty": None, "aliases": {}, "impl": impl}
+            "hash": hashlib.sha256(norm.encode()).hexdigest()[:16], "norm": norm, "selfty": selfty, "aliases": {}, "impl": impl}
 
 
 def generate(T, tr, spec):
